@@ -54,68 +54,7 @@ func runC17(c *Ctx) {
 	}
 
 	// ---- R17.2
-	if c.needWS("R17.2", "setupPings", w.SetupPings) && c.need("R17.2", "F_pongs", r.FPongs != nil) {
-		for _, which := range []string{"SetPongHandler", "SetPingHandler"} {
-			construct := fmt.Sprintf("%s handler: signals peer activity", which[3:7])
-			found := false
-			for _, ci := range gorillaConnCalls(p) {
-				if methodOf(ci) != which {
-					continue
-				}
-				found = true
-				var h *ssa.Function
-				switch x := ci.Common().Args[1].(type) {
-				case *ssa.MakeClosure:
-					h, _ = x.Fn.(*ssa.Function)
-				case *ssa.Function:
-					h = x
-				}
-				if h == nil {
-					c.und("R17.2", construct, c.ipos(ci), "handler is not a function literal")
-					continue
-				}
-				sig := false
-				blocking := false
-				allInstrs(h, func(in ssa.Instruction) {
-					switch x := in.(type) {
-					case *ssa.Select:
-						for _, st := range x.States {
-							if st.Dir == types.SendOnly && isLoadOf(st.Chan, r.FPongs) {
-								sig = true
-								if x.Blocking {
-									blocking = true
-								}
-							}
-						}
-					case *ssa.Send:
-						if isLoadOf(x.Chan, r.FPongs) {
-							sig, blocking = true, true
-						}
-					}
-				})
-				if !sig {
-					c.bad("R17.2", construct, c.ipos(ci), "the handler does not signal the connection loop: the loop's idle timer is not re-armed by this kind of peer activity and closes a healthy connection (go-jsonrpc peers never answer pings with pongs, so peer pings are the activity signal)")
-				} else if blocking {
-					c.bad("R17.2", construct, c.ipos(ci), "the handler signals with a blocking send from the reader goroutine: when the loop is busy the reader stalls and the link times out")
-				} else {
-					c.ok("R17.2", construct, c.ipos(ci), "non-blocking send on the activity channel")
-				}
-				// every return of the handler yields nil (a non-nil error aborts the read loop)
-			}
-			if !found {
-				c.bad("R17.2", construct, "-", "no "+which+" call: this kind of control frame is no longer treated as activity")
-			}
-		}
-		arm, ok := w.Arms["pongs"]
-		construct := fmt.Sprintf("%s: activity arm renews the read deadline", fname(r.FnLoop))
-		if !ok || arm.Body == nil {
-			c.bad("R17.2", construct, "-", "the connection loop has no arm receiving peer-activity signals")
-		} else {
-			blocks := armBlocks(arm)
-			hit := reachFromBlock(arm.Body, func(in ssa.Instruction) bool { return blocks[in.Block()] && isCallTo(in, w.ResetDL) }, func(in ssa.Instruction) bool { return !blocks[in.Block()] })
-			c.check(hit != nil, "R17.2", construct, c.ipos(arm.Body.Instrs[0]), "renews the deadline", "peer activity no longer renews the read deadline: calls longer than the timeout fail on a healthy link")
-		}
-	}
+	c.activitySignalRule("R17.2")
 
 	// ---- R17.3
 	if w.SetupPings != nil {
@@ -271,4 +210,75 @@ func runC17(c *Ctx) {
 		c.check(ok && n >= want, "R17.6", construct, "-", fmt.Sprintf("%d construction site(s) take it from configuration", n),
 			"the connection's "+f.Name()+" is not filled from the configured option at every construction site")
 	}
+}
+
+// activitySignalRule: pong and ping handlers signal peer activity (non-blocking) and the loop's activity arm renews the deadline.
+func (c *Ctx) activitySignalRule(rule string) {
+	p, r := c.P, c.R
+	w := c.ws()
+	RULE := rule
+	_ = p
+	if c.needWS(RULE, "setupPings", w.SetupPings) && c.need(RULE, "F_pongs", r.FPongs != nil) {
+		for _, which := range []string{"SetPongHandler", "SetPingHandler"} {
+			construct := fmt.Sprintf("%s handler: signals peer activity", which[3:7])
+			found := false
+			for _, ci := range gorillaConnCalls(p) {
+				if methodOf(ci) != which {
+					continue
+				}
+				found = true
+				var h *ssa.Function
+				switch x := ci.Common().Args[1].(type) {
+				case *ssa.MakeClosure:
+					h, _ = x.Fn.(*ssa.Function)
+				case *ssa.Function:
+					h = x
+				}
+				if h == nil {
+					c.und(RULE, construct, c.ipos(ci), "handler is not a function literal")
+					continue
+				}
+				sig := false
+				blocking := false
+				allInstrs(h, func(in ssa.Instruction) {
+					switch x := in.(type) {
+					case *ssa.Select:
+						for _, st := range x.States {
+							if st.Dir == types.SendOnly && isLoadOf(st.Chan, r.FPongs) {
+								sig = true
+								if x.Blocking {
+									blocking = true
+								}
+							}
+						}
+					case *ssa.Send:
+						if isLoadOf(x.Chan, r.FPongs) {
+							sig, blocking = true, true
+						}
+					}
+				})
+				if !sig {
+					c.bad(RULE, construct, c.ipos(ci), "the handler does not signal the connection loop: the loop's idle timer is not re-armed by this kind of peer activity and closes a healthy connection (go-jsonrpc peers never answer pings with pongs, so peer pings are the activity signal)")
+				} else if blocking {
+					c.bad(RULE, construct, c.ipos(ci), "the handler signals with a blocking send from the reader goroutine: when the loop is busy the reader stalls and the link times out")
+				} else {
+					c.ok(RULE, construct, c.ipos(ci), "non-blocking send on the activity channel")
+				}
+				// every return of the handler yields nil (a non-nil error aborts the read loop)
+			}
+			if !found {
+				c.bad(RULE, construct, "-", "no "+which+" call: this kind of control frame is no longer treated as activity")
+			}
+		}
+		arm, ok := w.Arms["pongs"]
+		construct := fmt.Sprintf("%s: activity arm renews the read deadline", fname(r.FnLoop))
+		if !ok || arm.Body == nil {
+			c.bad(RULE, construct, "-", "the connection loop has no arm receiving peer-activity signals")
+		} else {
+			blocks := armBlocks(arm)
+			hit := reachFromBlock(arm.Body, func(in ssa.Instruction) bool { return blocks[in.Block()] && isCallTo(in, w.ResetDL) }, func(in ssa.Instruction) bool { return !blocks[in.Block()] })
+			c.check(hit != nil, RULE, construct, c.ipos(arm.Body.Instrs[0]), "renews the deadline", "peer activity no longer renews the read deadline: calls longer than the timeout fail on a healthy link")
+		}
+	}
+
 }
